@@ -251,7 +251,24 @@ def check_bay(case, ctx):
     ctx.nontrivial = len(stiffs) > 0
     with package(name):
         ev, evec = freq(K, M, tol=0, sparse_solver=case['sparse'], silent=True, num_eigvalues=k)
-    judge(ctx, name, K, M, active, ev, evec, k, True, sparse=case['sparse'], tol=1e-5, full_spectrum=False, val_tol=1e-4)
+    try:
+        judge(ctx, name, K, M, active, ev, evec, k, True, sparse=case['sparse'], tol=1e-5, full_spectrum=False, val_tol=1e-4)
+    except Violation as v:
+        # listed finding R6b: the dense path runs QZ on the unscaled pair (-M, K); when K is positive definite only after diagonal
+        # scaling (raw condition number beyond 1/eps: thin soft stiffener flanges next to 1e13-sized penalty terms) LAPACK reports the
+        # lowest modes as infinite eigenvalues and freq() filters them out.  Signature re-derived here: dense path, cond(K) > 1e15, and
+        # what is returned is the true spectrum with leading members missing.
+        cK = np.linalg.cond(Ka)
+        ref = ref_freqs(Kd, Md, active)
+        got = np.sort(np.real(np.asarray(ev)))
+        subset = got.size < active.size and all(np.min(np.abs(ref - g)) <= 1e-4 * g for g in got[:max(1, min(k, got.size))])
+        if (not case['sparse']) and cK > 1e15 and subset and 'lowest' in v.bucket:
+            ctx.known(R6B, v.bucket, v.msg + ' [cond(K) = %.1e]' % cK)
+        else:
+            raise
+
+
+R6B = 'R6b-dense-freq-loses-lowest-modes-for-badly-scaled-K'
 
 
 @st.composite
